@@ -6,6 +6,22 @@ from harness.props.c01 import C01
 class C02(RunProp):
     id = 'C02'
     rule = C01.rule
+    manifest = {
+        'text': 'Theorems (same Lean model of TestCase.run/RunTest and same quantifier as C01: all test programs with any nesting of cleanups, '
+                'fixtures and patches, any exception kinds in any stages, decorators, handler tables, 7 result flavours, any left-over '
+                'force_failure, any number of repeated runs): setUp runs first, the test method and tearDown run exactly once iff setUp '
+                'returned, then only cleanups; the executed cleanups are a permutation of all cleanups ever registered (in setUp, test, '
+                'tearDown, inside cleanups, by patch, by useFixture); the stage sequence is accepted by a LIFO stack machine; no cleanup is '
+                'left registered; the attribute store after the run equals the one before (patched existing and absent attributes, repeated '
+                'patches); every further run of the instance yields the same events and the same propagated exception as the first '
+                '(force_failure is the only state surviving _reset and is read only at the forced-failure test).',
+        'note': 'trusted: Lean kernel; hand-written model TTV/Model/RunTest.lean; harness/mrun.py; hypothesis wf: distinct stage ids, user '
+                'handlers only for Exception subclasses, initial attribute store has distinct attribute names; "exactly once" is stated on '
+                'the ghost records ran/regd of the model; MonkeyPatcher, fixtures library and CPython try/finally modelled, not verified',
+        'technique': 'Lean 4 invariant proofs over an executable model of the runner: induction principle for the well-founded cleanup loop, '
+                     'cleanup stack as undo log (finite-map view of the attribute store), two-run agreement relation for force_failure, '
+                     'differential correspondence',
+    }
 
 
 PROP = C02()
